@@ -29,7 +29,7 @@ impl Monitor for C14 {
         ]
     }
     fn rule(&self) -> String {
-        "case = one generated history applied in lock-step to six logs (DoNothing, OnDelay(1h,Flush), OnDelay(1h,FlushAndFsync), OnDelay(0,FlushAndFsync), Always(Flush), Always(FlushAndFsync)); explicit persist calls of the history are issued on the even-numbered logs only; evaluation = one call whose six outcomes (positions, eviction counts, error variants; byte counts excluded) and six observable states must agree, or one restart / final reopen-under-another-policy comparison; distinct_nontrivial = distinct state digests reached after calls of histories that rolled over at least once".into()
+        "case = one generated history applied in lock-step to seven logs (DoNothing, OnDelay(1h,Flush), OnDelay(1h,FlushAndFsync), OnDelay(0,FlushAndFsync), OnDelay(2ms,Flush) with 3 ms sleeps before every fifth call so that the delay elapses between calls, Always(Flush), Always(FlushAndFsync)); explicit persist calls of the history are issued on the even-numbered logs only; evaluation = one call whose outcomes (positions, eviction counts, error variants; byte counts excluded) and observable states must agree, or one restart / final reopen-under-another-policy comparison; distinct_nontrivial = distinct state digests reached after calls of histories that rolled over at least once".into()
     }
     fn assumptions(&self) -> Vec<String> {
         vec!["byte counts (wal_bytes_written) are not part of the comparison: the statement lists positions, eviction counts and errors".into()]
